@@ -103,6 +103,7 @@ type Run struct {
 	Output     []string // mrp stdout lines
 	outBuf     strings.Builder
 	Ops        []OpEvent
+	Panics     []string
 }
 
 // FileRec is a file written by stage code.
@@ -408,6 +409,20 @@ func (r *Run) Execute() {
 	vproc.T.Launch = r.launch
 	vproc.T.OnExit = r.onProcExit
 	vproc.T.Path["qsub"] = true
+	vrt.S.OnPanic = func(t *vrt.Task, rec interface{}, stack []byte) {
+		msg := fmt.Sprint(rec)
+		st := string(stack)
+		if i := strings.Index(st, "panic("); i >= 0 {
+			st = st[i:]
+		}
+		if len(st) > 1500 {
+			st = st[:1500]
+		}
+		r.Panics = append(r.Panics, fmt.Sprintf("%s: panic: %s\n%s", t.Label, msg, st))
+		if t.Proc != nil {
+			vproc.Finish(t.Proc, 2, 0)
+		}
+	}
 	r.Start = time.Now()
 	defer func() {
 		r.SimTime = time.Since(r.Start)
